@@ -41,7 +41,7 @@ RULE = ("directed: k in {0,1,2,3,5} open streams x GOAWAY id in {0, first, middl
 
 
 def gen(rng, tier):
-    n = {"quick": 350, "thorough": 12000, "search": 4000}[tier]
+    n = {"quick": 350, "thorough": 30000, "search": 4000}[tier]
     reps = {"quick": 2, "thorough": 20, "search": 8}[tier]
     for _ in range(reps):
         for ops, tag in g.directed_goaway(rng):
